@@ -458,7 +458,7 @@ func checkC11(c *Ctx, r *Report) {
 			common = intersect(common, a.Held)
 		}
 	}
-	key := btyp + "." + bfield + ":lockset"
+	key := "gateway:sleep-buffer(" + c.stableFieldKey(btyp, bfield) + "):lockset"
 	if len(acc) == 0 {
 		r.undecided("R3", key, "-", "no access to the buffer found")
 	} else if len(common) == 0 && writers > 0 {
